@@ -197,7 +197,7 @@ def onestep_task(kind, items):
     sh = shim()
     for text, start, pre, inp in items:
         prog = P.parse(text)
-        lockstep(sh, st, text, prog, inp, pre, start, 1, 'step:' + kind)
+        lockstep(sh, st, text, prog, inp, pre, start, 3 if kind == 'label' else 1, 'step:' + kind)
         st.add('states', (tuple(sorted((k, tuple(map(val_lit, v))) for k, v in pre.get('stacks', {}).items())), pre.get('cur')))
     return st
 
@@ -229,22 +229,24 @@ def onestep_cases(tier):
             for (kind, syl, d) in bodies:
                 text = P.spell(kind, syl, d) + a
                 cases['area'].append((text, 0, {'stacks': {3: c, 4: [Fraction(1), Fraction(2)]}, 'cur': 3}, ''))
-    # label / ♡ outcomes: command under test at index 1
+    # label / ♡ outcomes: the label table is built by executing a registering command first (two-step traces);
+    # the last jump source (an index, no encoding involved) is pre-set through the API
     for a in areas:
         if not any(h in a for h in P.HEARTS):
             continue
         for (kind, syl, d) in bodies:
-            text = '형 ' + P.spell(kind, syl, d) + a
             cnt = syl * d
             hearts = [h for h in a if h in P.HEARTS and h != '♡']
-            for c in ([], [Fraction(0)], [Fraction(1), Fraction(cnt)], [Fraction(cnt), Fraction(cnt - 1), Fraction(cnt)]):
-                for lab in ('none', 'other', 'self'):
+            regs = ['형']                                             # registers nothing
+            for h in hearts[:1]:
+                regs.append('형' + '.' * cnt + h)                     # same (count, heart): the tested command jumps back
+                regs.append('형' + '.' * cnt + P.HEARTS[(P.HEARTS.index(h) + 1) % 11])   # same count, other heart
+                regs.append('형' + '.' * (cnt + 1) + h)               # same heart, other count
+            for reg in regs:
+                text = reg + ' ' + P.spell(kind, syl, d) + a
+                for c in ([], [Fraction(0)], [Fraction(1), Fraction(cnt)], [Fraction(cnt), Fraction(cnt - 1), Fraction(cnt)]):
                     for latest in (None, 0):
-                        labels = {}
-                        if lab != 'none':
-                            for h in hearts:
-                                labels[(cnt, h)] = 0 if lab == 'other' else 1
-                        cases['label'].append((text, 1, {'stacks': {3: c}, 'cur': 3, 'labels': labels, 'latest': latest}, ''))
+                        cases['label'].append((text, 0, {'stacks': {3: c}, 'cur': 3, 'latest': latest}, ''))
     # selected stack 1 / 2: exits before / after partial effects
     for sel in (1, 2):
         for kind in range(6):
@@ -434,7 +436,8 @@ def run_c01(tier):
                         tasks.append(('programs', alpha, [a, b], L - 2, inputs, False))
                 else:
                     tasks.append(('programs', alpha, [a], L - 1, inputs, tier == 'quick' or L <= 3))
-    labs = label_programs()
+    from .eng_optdiff import labelflow_family
+    labs = label_programs() + labelflow_family()
     for i in range(0, len(labs), 60):
         tasks.append(('curated-list', labs[i:i + 60]))
     cur = curated_programs()
